@@ -28,6 +28,8 @@ CLAIMED = {
                 note="PARTIAL: 'explained by the operation history' is not decided (needs the kernel). E8 (one event bit per record), C14's contract for the generators, dirname/fsdecode uninterpreted with E2/E3 axioms. Known limitation: stale watch of a moved-out directory (phantom events) - see DESIGN.md.", ref="4/C03"),
     "C19": dict(text="Ghost type tag on every path: ObservedWatch.__init__ (Path -> str), on_thread_start (kernel side gets fsencode(watch.path)), _decode_path (type of the watch path, fsencode(result) = native), and for every row of the translation table every non-empty event path has the watch path's type and fsencode of each directly built path is the native path / its dirname; watch identity keeps the path type (key/__eq__). Polling side: walk/queue_events contracts of C10.",
                 note="E3 fsencode(fsdecode(b)) = b, E2 dirname commutes with decoding, C14/E1 for synthetic events. That the native path is root joined with the real relative name is C02's bookkeeping.", ref="4/C19"),
+    "C10": dict(text="PollingEmitter.queue_events: nothing when stopped; otherwise exactly one event per entry of the eight diff lists, of the right class, at its place in the deleted/modified/created/moved, files-then-directories order (8 loop invariants with segment offsets), the new snapshot becomes the baseline; snapshot OSError => one DirDeletedEvent(root) + stop, baseline kept; on_thread_start baseline. DirectorySnapshot.walk: yields exactly (join(root,name), stat) of the entries whose stat succeeded, in listing order, tolerated listing errors contribute nothing, each yielded directory walked exactly once iff recursive (failures forked at every stat/listdir call); __init__: wf0 and exact path set.",
+                note="The diff is used through C09's contract. stat/listdir arbitrary (may raise at every call); recursion replaced by the function's own contract (finite depth assumed); os.path.join uninterpreted.", ref="4/C10"),
 }
 
 NOT_APPLICABLE = {
